@@ -31,8 +31,55 @@ func init() {
 		}
 		f.raw("-- chain/account_pool.go: (method, exported, index of `ap.changes.Lock(); defer ap.changes.Unlock()`, index of first access to pool state), 0 = none\n")
 		f.raw("def poolLockSites : List (String × Bool × Nat × Nat) := [\n%s\n]\n", strings.Join(sites, ",\n"))
+		// number of `return` statements inside the per-address loop of rebuild (a return there skips the remaining addresses)
+		n, err := rebuildLoopReturns(filepath.Join(repo, "chain", "account_pool.go"))
+		if err != nil {
+			return nil, err
+		}
+		f.raw("-- chain/account_pool.go rebuild: return statements inside `for _, address := range addresses`\n")
+		f.nat("rebuildLoopReturns", n)
 		return f, nil
 	})
+}
+
+func rebuildLoopReturns(path string) (int, error) {
+	fset := token.NewFileSet()
+	file, err := parser.ParseFile(fset, path, nil, 0)
+	if err != nil {
+		return 0, err
+	}
+	for _, d := range file.Decls {
+		fd, ok := d.(*ast.FuncDecl)
+		if !ok || fd.Name.Name != "rebuild" || fd.Recv == nil || fd.Body == nil {
+			continue
+		}
+		n, loops := 0, 0
+		ast.Inspect(fd.Body, func(nd ast.Node) bool {
+			rs, ok := nd.(*ast.RangeStmt)
+			if !ok {
+				return true
+			}
+			if id, ok := rs.X.(*ast.Ident); !ok || id.Name != "addresses" {
+				return true
+			}
+			loops++
+			ast.Inspect(rs.Body, func(in ast.Node) bool {
+				switch in.(type) {
+				case *ast.FuncLit:
+					return false
+				case *ast.ReturnStmt:
+					n++
+				}
+				return true
+			})
+			return false
+		})
+		if loops != 1 {
+			return 0, fmt.Errorf("rebuild: expected one loop over addresses, found %d", loops)
+		}
+		return n, nil
+	}
+	return 0, fmt.Errorf("accountPool.rebuild not found in %s", path)
 }
 
 func poolLockSites(path string) ([]string, error) {
